@@ -900,3 +900,45 @@ def gen_branching(rng):
     rng.shuffle(lo)
     maxstep = max(max(c["steps"]) for c in comps)
     return {"comps": comps, "end": rng.choice([2, 3, 5]) * maxstep, "link_order": lo}
+
+
+def gen_ring_staggered(rng):
+    """A delay-resolved ring (or a delayed plain link) whose components start at DIFFERENT times: the consumer behind
+    the delay adapter(s) starts later (or earlier) than its source.  The lower bound of delayed requests is the
+    SOURCE's start (the time of the info the source delivers), whoever asks."""
+    unit = rng.choice(UNITS)
+    n = rng.choice([2, 2, 3])
+    comps = [{"kind": "T", "start": 0, "steps": [unit * rng.choice([1, 2, 3])], "initpull": False, "nout": 1, "inputs": []}
+             for _ in range(n)]
+    total = sum(max(c["steps"]) for c in comps)
+    k0 = rng.randrange(n)           # the link into k0 carries the whole delay
+    d = total + rng.choice([0, 0, unit])
+    kind = rng.choice(["fixed", "fixed", "split", "topull"])
+    for k in range(n):
+        src = (k - 1) % n
+        if k == k0:
+            if kind == "fixed":
+                ch = [["fixed", d]]
+            elif kind == "split":
+                a = rng.randint(0, d)
+                ch = [["fixed", a], ["fixed", d - a]]
+            else:
+                steps_k = max(comps[k]["steps"])
+                ch = [["topull", max(1, -(-d // steps_k)) + 1, 0]]
+            if rng.random() < 0.3:
+                ch.insert(rng.randrange(len(ch) + 1), ["pass"])
+        else:
+            ch = [["pass"]] if rng.random() < 0.3 else []
+        comps[k]["inputs"].append({"src": [src, 0], "chain": ch})
+    # the consumer behind the delay starts later than its source (sometimes the other way round)
+    off = unit * rng.choice([2, 4, 9, 1])
+    if rng.random() < 0.75:
+        comps[k0]["start"] = off
+    else:
+        comps[(k0 - 1) % n]["start"] = off
+    if rng.random() < 0.3:
+        comps[k0]["initpull"] = True
+    order = list(range(n))
+    rng.shuffle(order)
+    maxstep = max(max(c["steps"]) for c in comps)
+    return {"comps": permute(comps, order), "end": off + rng.choice([3, 5, 8]) * maxstep}
